@@ -64,7 +64,7 @@ CAND_BLOCK = 12
 
 
 def decode_params(r, values, allow_upper=True):
-    count = r.pick([0, 1, 1, 2, 0, 1, 2])
+    count = r.pick([0, 0, 1, 1, 1, 2, 2])
     first = r.n(2)
     out = []
     for j in range(2):
@@ -119,8 +119,8 @@ def decode_accept(data, slice_name, invalid):
     head = r.block(8)
     values = {'main': PLAIN_VALUES, 'quoted_comma': PLAIN_VALUES + COMMA_VALUES * 3,
               'quoted_backslash': PLAIN_VALUES + BACKSLASH_VALUES * 3}[slice_name]
-    nr = 1 + head.pick([1, 2, 0, 3, 1, 2, 4, 5, 2, 3])
-    nc = 1 + head.pick([1, 0, 2, 3, 1, 2, 4])
+    nr = 1 + head.pick([0, 1, 1, 2, 2, 2, 3, 3, 4, 5])
+    nc = 1 + head.pick([0, 1, 1, 2, 2, 3, 4])
     ranges = [decode_range(r.block(RANGE_BLOCK), values) for _ in range(6)][:nr]
     cands = [decode_candidate(r.block(CAND_BLOCK), values) for _ in range(5)][:nc]
     tail = r.block(16)
@@ -144,7 +144,7 @@ def accept_cases(slice_name, invalid=False):
 
 # ------------------------------------------------------------------ handler mappings
 
-PROBE_BLOCK = 4 + 2 * RANGE_BLOCK
+PROBE_BLOCK = 4 + RANGE_BLOCK
 OP_BLOCK = 14
 HISTORY_OPS = ['set', 'delete', 'copy', 'ior', 'update', 'pop', 'set', 'clear', 'setdefault', 'or', 'popitem',
                'delete', 'copy', 'ior']
@@ -152,21 +152,28 @@ E2E_OPS = ['set', 'delete', 'ior', 'update', 'replace', 'pop', 'copy_replace', '
 
 
 def decode_probe(r, nkeys, raw_texts, allow_none=True):
-    kind = r.pick(['k', 'r1', 'raw', 'r1', 'k', 'r2', 'raw'])
+    """A content type: exact key text, a raw text, or one structured range (a content type is a
+    single type; q, when present, has at most 3 digits and is > 0 so that reading q as an ordinary
+    parameter or as a weight designates the same handler)."""
+    kind = r.pick(['k', 'r', 'raw', 'r', 'k', 'r', 'raw'])
     k = r.n(nkeys)
     raw = r.pick(([None] if allow_none else []) + raw_texts)
     _ = r.n(2)
     r1 = decode_range(r.block(RANGE_BLOCK), PROBE_VALUES)
-    r2 = decode_range(r.block(RANGE_BLOCK), PROBE_VALUES)
+    if r1['q'] is not None:
+        if r1['q'][1] is not None:
+            r1['q'][1] = r1['q'][1][:3]
+        if not (r1['q'][0] == '1' or (r1['q'][1] or '').strip('0')):
+            r1['q'] = None
     if kind == 'k':
         return {'k': k}
     if kind == 'raw':
         return {'raw': raw}
-    return {'r': [r1] if kind == 'r1' else [r1, r2]}
+    return {'r': [r1]}
 
 
 def decode_items(r, nkeys, nhandlers, min_size=0):
-    n = r.pick([1, 2, 0, 3, 1])
+    n = r.pick([0, 1, 1, 2, 3])
     pairs = [[r.n(nkeys), r.n(nhandlers)] for _ in range(3)]
     return pairs[:max(n, min_size)]
 
@@ -202,7 +209,7 @@ HISTORY_SIZE = 16 + 12 * OP_BLOCK + 6 * PROBE_BLOCK + 2 * PROBE_BLOCK
 def decode_history(data, nkeys, nhandlers, raw_texts):
     r = Reader(data)
     head = r.block(16)
-    nsteps = 1 + head.pick([3, 1, 5, 7, 9, 11, 2, 4, 6, 8, 10, 0])
+    nsteps = 1 + head.n(12)
     nprobes = 2 + head.n(5)
     init = None if head.n(5) == 4 else decode_items(head, nkeys, nhandlers, min_size=1)
     steps = [decode_history_op(r.block(OP_BLOCK), nkeys, nhandlers) for _ in range(12)][:nsteps]
@@ -243,7 +250,7 @@ E2E_SIZE = 24 + (1 + E2E_POOL) * PROBE_BLOCK + 8 * E2E_STEP_BLOCK
 def decode_e2e(data, nkeys, nhandlers, raw_texts, default_raw_texts):
     r = Reader(data)
     head = r.block(24)
-    nsteps = 1 + head.pick([2, 1, 3, 4, 5, 6, 7, 0])
+    nsteps = 1 + head.n(8)
     inits = []
     for _ in range(2):
         inits.append({'mode': head.pick(['replace', 'inplace']), 'items': decode_items(head, nkeys, nhandlers, min_size=1)})
@@ -252,7 +259,7 @@ def decode_e2e(data, nkeys, nhandlers, raw_texts, default_raw_texts):
     steps = []
     for _ in range(8):
         b = r.block(E2E_STEP_BLOCK)
-        nops = b.pick([1, 2, 1, 1])
+        nops = b.pick([1, 1, 1, 2])
         _ = b.n(2)
         ops = [decode_e2e_op(b.block(OP_BLOCK), nkeys, nhandlers) for _ in range(2)][:nops]
         steps.append({'ops': ops})
